@@ -10,14 +10,20 @@ REGISTRY.class_files.update({"LatticeMaze": F})
 COORDS = T.OneOf(T.NoneT(), T.ListT(T.CoordTup))
 
 
-@contract(F, "LatticeMaze.get_nodes", assumed=True,
-          notes="assumed at call sites: every cell of the grid exactly once (np.meshgrid / ravel index algebra is outside the subset; decided by the bounded stand-in of C13 for all shapes <= 12x12)")
+_R, _C = "self.connection_list.shape[1]", "self.connection_list.shape[2]"
+
+
+@contract(F, "LatticeMaze.get_nodes",
+          notes="verified against its body; trusted: the library contracts of np.meshgrid(indexing='ij') / ndarray.ravel / np.vstack / .T and the row-major index algebra (Lean: unravel_*)")
 class get_nodes:
+    """every cell of the grid exactly once, in row-major order: entry k is the cell (k // C, k % C)"""
     params = dict(self=T.Maze())
+    exit_lemmas = [f"unravel_lemma({_R}, {_C})"]
     ensures = {
-        "members": "forall(lambda i, j: ((i, j) in result) == in_grid(self, (i, j)), None, None)",
+        "count": f"len(result) == {_R} * {_C}",
+        "row-major": f"forall(lambda k: result[k][0] == unravel_row(k, {_C}) and result[k][1] == unravel_col(k, {_C}), (0, len(result)))",
+        "onto": f"forall(lambda i, j: 0 <= ravel_index(i, j, {_C}) and ravel_index(i, j, {_C}) < len(result) and result[ravel_index(i, j, {_C})][0] == i and result[ravel_index(i, j, {_C})][1] == j, (0, {_R}), (0, {_C}))",
         "in-grid": "forall(lambda k: in_grid(self, result[k]), (0, len(result)))",
-        "count": "len(result) == self.connection_list.shape[1] * self.connection_list.shape[2]",
         "distinct": "forall(lambda a, b: implies(a != b, not (result[a][0] == result[b][0] and result[a][1] == result[b][1])), (0, len(result)), (0, len(result)))",
     }
     result = T.GridT("int", [None, 2])
